@@ -79,6 +79,11 @@ func ServerHandle(rw netio.Conn, logger *zap.Logger, usernameByToken map[string]
 		if req.Close {
 			return nil, conn.Addr{}, "", newFailedAuthAttemptsError(failedAuthAttempts)
 		}
+
+		// Consume the body of the rejected request, so that it is not mistaken for the start of the next request.
+		if _, err = io.Copy(io.Discard, req.Body); err != nil {
+			return nil, conn.Addr{}, "", fmt.Errorf("failed to discard HTTP request body after %w: %w", newFailedAuthAttemptsError(failedAuthAttempts), err)
+		}
 	}
 
 	if ce := logger.Check(zap.DebugLevel, "Received initial HTTP request"); ce != nil {
